@@ -2639,7 +2639,20 @@ func (p *printer) printExpr(expr js_ast.Expr, level js_ast.L, flags printExprFla
 			}
 			flags &= ^(isNewTarget | hasNonOptionalChainParent)
 		}
+		// An expression statement (or a "for" loop initializer) cannot start with
+		// "let [" because that would be parsed as a lexical declaration, so
+		// "(let)[0] = 1" must keep its parentheses
+		wrapLet := false
+		if id, ok := e.Target.Data.(*js_ast.EIdentifier); ok && (p.stmtStart == len(p.js) || p.forInitExprStart == len(p.js)) && e.OptionalChain != js_ast.OptionalChainStart {
+			if _, isPrivate := e.Index.Data.(*js_ast.EPrivateIdentifier); !isPrivate && p.renamer.NameForSymbol(id.Ref) == "let" {
+				wrapLet = true
+				p.print("(")
+			}
+		}
 		p.printExpr(e.Target, js_ast.LPostfix, (flags&(isNewTarget|hasNonOptionalChainParent))|isPropertyAccessTarget)
+		if wrapLet {
+			p.print(")")
+		}
 		if e.OptionalChain == js_ast.OptionalChainStart {
 			p.print("?.")
 		}
@@ -3731,6 +3744,7 @@ func (p *printer) printDeclStmt(isExport bool, keyword string, decls []js_ast.De
 func (p *printer) printForLoopInit(init js_ast.Stmt, flags printExprFlags) {
 	switch s := init.Data.(type) {
 	case *js_ast.SExpr:
+		p.forInitExprStart = len(p.js)
 		p.printExpr(s.Value, js_ast.LLowest, flags|exprResultIsUnused)
 	case *js_ast.SLocal:
 		switch s.Kind {
